@@ -142,16 +142,17 @@ impl Doc {
         match self {
             Doc::Seq(v) => Doc::Seq(v.iter().map(|d| d.canonical()).collect()),
             Doc::Obj(m) => {
-                let mut out: Vec<(String, Doc)> = vec![];
-                for (k, v) in m {
-                    if let Some(e) = out.iter_mut().find(|(k2, _)| k2 == k) {
-                        e.1 = v.canonical();
-                    } else {
-                        out.push((k.clone(), v.canonical()));
+                let mut out: Vec<(String, Doc)> = m.iter().map(|(k, v)| (k.clone(), v.canonical())).collect();
+                // stable sort, then the last entry of every run of equal keys wins
+                out.sort_by(|a, b| a.0.cmp(&b.0));
+                let mut dedup: Vec<(String, Doc)> = Vec::with_capacity(out.len());
+                for e in out {
+                    match dedup.last_mut() {
+                        Some(l) if l.0 == e.0 => *l = e,
+                        _ => dedup.push(e),
                     }
                 }
-                out.sort_by(|a, b| a.0.cmp(&b.0));
-                Doc::Obj(out)
+                Doc::Obj(dedup)
             }
             d => d.clone(),
         }
@@ -165,12 +166,9 @@ impl Doc {
             Doc::Float(f) => f.is_finite(),
             Doc::Seq(v) => v.iter().all(|d| d.is_plain()),
             Doc::Obj(m) => {
-                for (i, (k, v)) in m.iter().enumerate() {
-                    if m[..i].iter().any(|(k2, _)| k2 == k) || !v.is_plain() {
-                        return false;
-                    }
-                }
-                true
+                let mut keys: Vec<&String> = m.iter().map(|(k, _)| k).collect();
+                keys.sort();
+                keys.windows(2).all(|w| w[0] != w[1]) && m.iter().all(|(_, v)| v.is_plain())
             }
             _ => true,
         }
